@@ -17,8 +17,8 @@ RES=""
 for ID in $IDS; do
     ( cd "$LAB/verif" && ./bin/check "$ID" "$TIER" >"$LAB/check-$ID.log" 2>&1 )
     RC=$?
-    FIRST=$(grep -m1 "^  stage" "$LAB/check-$ID.log" | cut -c1-300 | python3 -c 'import sys,json; print(json.dumps(sys.stdin.read().strip()))')
+    FIRST=$(grep -m1 "^  stage" "$LAB/check-$ID.log" | python3 -c 'import sys,json; print(json.dumps(sys.stdin.read().strip()[:300]))')
     RES="$RES\"$ID\":{\"rc\":$RC,\"first\":${FIRST:-\"\"}},"
 done
 git checkout -q -- .
-echo "{\"name\":\"$NAME\",\"suite\":\"$SUITE\",\"tier\":\"$TIER\",\"results\":{${RES%,}}}"
+printf "%s\n" "{\"name\":\"$NAME\",\"suite\":\"$SUITE\",\"tier\":\"$TIER\",\"results\":{${RES%,}}}"
